@@ -59,7 +59,7 @@ def audit_edges(ctx, rule, F, edges, table_name, region_name):
         a = audited.get(e.key)
         if a is not None:
             used.add(e.key)
-            g = panics.guard_count(fn, e.block)
+            g = panics.guard_count(fn, e.block) + getattr(e, "extra_guards", 0)
             if g < a.get("min_guards", 0):
                 counts["open"] += 1
                 ctx.ob(rule, e.key, False, e.where, "audited edge lost a guard: %d controlling branch(es) now, %d when audited (%s)" % (
